@@ -41,6 +41,7 @@ typedef struct mv_config {
   long step_budget;      /* max points+spins; beyond: inconclusive */
   int noise_level;       /* NOISE mode: 0..255 */
   int burst_id;          /* spin id whose loop (one without inner points) polls burst_len times in place ... */
+  int burst_ids[8];      /* ... further ids with the same treatment (0 terminated) ... */
   long burst_len;        /* ... before it starts handing the token on: a long window in which the awaited event does not happen */
 } mv_config;
 
